@@ -997,6 +997,7 @@ def prof_C06(d, rng):
     d["junit"] = False
     d["dry_run"] = rng.random() < 0.1
     d["hook_skips"] = False
+    d["status_reads"] = rng.random() < 0.25    # user code walks the model (builds outline rows early)
 
 
 def c06_probe(world, hist, pred, stats):
